@@ -150,6 +150,7 @@ pub fn run_check(a: &CheckArgs) -> i32 {
     let mut reports: Vec<J> = Vec::new();
     let mut crashed: Vec<String> = Vec::new();
     let mut hung: Vec<u64> = Vec::new();
+    let mut crashed_idx: Vec<u64> = Vec::new();
     let mut digest_files = Vec::new();
     for (w, k, dfile) in kids {
         let out = k.wait_with_output();
@@ -160,6 +161,7 @@ pub fn run_check(a: &CheckArgs) -> i32 {
                 match json::parse(line) {
                     Ok(j) if o.status.success() => reports.push(j),
                     Ok(j) if j.get("hung_index").is_some() => hung.push(j.u("hung_index")),
+                    Ok(j) if j.get("crashed_index").is_some() => crashed_idx.push(j.u("crashed_index")),
                     _ => crashed.push(format!("worker {} exited with {:?} (log: {}/{}-w{}.log)", w, o.status, tmp, tag, w)),
                 }
             }
@@ -228,17 +230,26 @@ pub fn run_check(a: &CheckArgs) -> i32 {
     samples.truncate(3);
     // a run that never came back: reported with its scenario (re-running it hangs again)
     hung.sort_unstable();
-    for &index in hung.iter().take(1) {
+    crashed_idx.sort_unstable();
+    let fatal: Vec<(u64, bool)> = hung.iter().map(|i| (*i, true)).chain(crashed_idx.iter().map(|i| (*i, false))).collect();
+    for &(index, is_hang) in fatal.iter().take(1) {
         let seed = crate::prng::run_seed(a.seed, props::salt(prop), index);
         let (scn, cfg) = props::generate(prop, seed, index);
         n_violations += 1;
         violations.push(
             J::obj()
                 .set("property", J::str(prop))
-                .set("class", J::Str(format!("{}.hang", prop)))
+                .set("class", J::Str(format!("{}.{}", prop, if is_hang { "hang" } else { "crash" })))
                 .set("site", J::str("?"))
                 .set("tags", J::Arr(scn.tags.iter().map(|t| J::str(t)).collect()))
-                .set("message", J::str("the run never came back: the queue's code loops outside any scheduling point of the simulator (for example a destructor walking an inconsistent position range); the worker's watchdog ended the process"))
+                .set(
+                    "message",
+                    J::str(if is_hang {
+                        "the run never came back: the queue's code loops outside any scheduling point of the simulator (for example a destructor walking an inconsistent position range); the worker's watchdog ended the process"
+                    } else {
+                        "the worker process died on a fatal signal (segmentation fault / abort) while executing this run: real memory corruption in the queue's code"
+                    }),
+                )
                 .set("index", J::UInt(index))
                 .set("seed", J::UInt(seed))
                 .set("end", J::str("hang"))
@@ -504,6 +515,11 @@ pub fn run_replay(path: &str) -> i32 {
         return match out {
             Ok(o) if o.status.code() == Some(124) => {
                 println!("reproduced: the run does not come back within 90 s");
+                println!("VIOLATION property={} replay={}", j.s("property"), path);
+                1
+            }
+            Ok(o) if !o.status.success() => {
+                println!("reproduced: the run ended abnormally ({:?})", o.status);
                 println!("VIOLATION property={} replay={}", j.s("property"), path);
                 1
             }
